@@ -496,7 +496,7 @@ pub fn run(args: &Args) -> i32 {
     let rt = tokio::runtime::Builder::new_multi_thread().worker_threads(4).enable_all().build().unwrap();
     let dty = "list (N * option (list N))";
     let mut fts = Stream::new("fts", REQ, "chk_fts", &format!("bool * {dty} * {dty} * list N * fquery"), "outcome (list N)");
-    fts.shard = 60;
+    fts.shard = 30;
     let dir = tempfile::tempdir().unwrap();
     for ti in 0..args.vol(3, 12) {
         let mut r = rng.fork();
